@@ -6,7 +6,7 @@ import PdfVerif.Lemmas.Lexer
 set_option linter.unusedSimpArgs false
 
 namespace PdfVerif.ContentLex
-open PdfVerif PdfVerif.Lexer
+open PdfVerif PdfVerif.Lexer PdfVerif.Gen.LexTables
 
 def isStringMode : Mode → Bool
   | .string | .string1 | .string2 => true
@@ -135,5 +135,18 @@ theorem lex_cut_between (a b : Bytes) (h : Between (foldBytes St.init a 0).1) :
   rw [foldBytes_append]
   obtain ⟨h1, h2⟩ := foldBytes_live b (foldBytes St.init a 0).1 St.init (0 + a.length) 0 (between_live _ h)
   exact ⟨by rw [vals_append, h2], h1⟩
+
+theorem cls32 : isNONSPC 32 = false ∧ isEND_KEYWORD 32 = true ∧ isEND_NUMBER 32 = true ∧ isEND_LITERAL 32 = true := by decide +kernel
+theorem cls10 : isNONSPC 10 = false ∧ isEND_KEYWORD 10 = true ∧ isEND_NUMBER 10 = true ∧ isEND_LITERAL 10 = true := by decide +kernel
+
+theorem between_after_space (st : St) (c : UInt8) (pos : Nat) (hc : c = 32 ∨ c = 10)
+    (hm : st.mode = .main ∨ st.mode = .keyword ∨ st.mode = .number ∨ st.mode = .literal ∨ st.mode = .wclose) :
+    Between (stepByte st c pos).1 := by
+  obtain ⟨m, cur, t, p, o, h⟩ := st
+  simp only at hm
+  rcases hc with rfl | rfl <;> rcases hm with rfl | rfl | rfl | rfl | rfl <;>
+    simp [Between, stepByte, stepN, searchClass, atHit, parseMainHit, parseKeywordHit, parseNumberHit, parseLiteralHit,
+      parseWcloseHit, accum, emit, cls32.1, cls32.2.1, cls32.2.2.1, cls32.2.2.2, cls10.1, cls10.2.1, cls10.2.2.1, cls10.2.2.2]
+
 
 end PdfVerif.ContentLex
